@@ -53,6 +53,7 @@ type c16SkelWalker struct {
 	guarded map[string]string // Go field name -> Coq field
 	events  []string
 	notes   []string
+	escapes []string // guarded fields whose address is taken: whoever holds the pointer reads without the lock
 }
 
 func (w *c16SkelWalker) isRecv(e ast.Expr) bool {
@@ -135,6 +136,16 @@ func (w *c16SkelWalker) read(n ast.Node) {
 				}[op])
 
 				return false
+			}
+		case *ast.UnaryExpr:
+			if t.Op == token.AND {
+				if f, ok := w.fieldOf(t.X); ok {
+					w.events = append(w.events, "ERead "+f)
+					w.escapes = append(w.escapes, f)
+					w.notes = append(w.notes, "address of "+f+" taken")
+
+					return false
+				}
 			}
 		case *ast.SelectorExpr:
 			if f, ok := w.fieldOf(t); ok {
@@ -346,6 +357,12 @@ func c16ExtractSkeleton(path string) ([]c16Method, []string, error) {
 
 		w := &c16SkelWalker{recv: fn.Recv.List[0].Names[0].Name, mutex: mutex, guarded: guarded}
 		w.block(fn.Body)
+
+		// a pointer to a guarded field outlives the critical section
+		for _, f := range w.escapes {
+			w.events = append(w.events, "ERead "+f)
+		}
+
 		notes = append(notes, w.notes...)
 
 		interesting := false
@@ -358,6 +375,49 @@ func c16ExtractSkeleton(path string) ([]c16Method, []string, error) {
 
 		if interesting {
 			methods = append(methods, c16Method{Name: fn.Name.Name, Events: w.events})
+		}
+	}
+
+	// the other files of the package: any access to a guarded field through a `.signer` reference (or in a
+	// function that is not a method of jwtSigner) happens without the lock
+	others, _ := filepath.Glob(filepath.Join(filepath.Dir(path), "*.go"))
+	sort.Strings(others)
+
+	for _, other := range others {
+		if strings.HasSuffix(other, "_test.go") {
+			continue
+		}
+
+		of, err := parser.ParseFile(fset, other, nil, 0)
+		if err != nil {
+			continue
+		}
+
+		for _, d := range of.Decls {
+			fn, ok := d.(*ast.FuncDecl)
+			if !ok || fn.Body == nil {
+				continue
+			}
+
+			var evs []string
+
+			ast.Inspect(fn.Body, func(n ast.Node) bool {
+				sel, ok := n.(*ast.SelectorExpr)
+				if !ok || guarded[sel.Sel.Name] == "" {
+					return true
+				}
+
+				if inner, ok := sel.X.(*ast.SelectorExpr); ok && inner.Sel.Name == "signer" {
+					evs = append(evs, "ERead "+guarded[sel.Sel.Name])
+				}
+
+				return true
+			})
+
+			if len(evs) != 0 {
+				methods = append(methods, c16Method{Name: filepath.Base(other) + ":" + fn.Name.Name, Events: evs})
+				notes = append(notes, "unlocked access in "+filepath.Base(other))
+			}
 		}
 	}
 
@@ -447,7 +507,7 @@ func TestVerifC16Race(t *testing.T) {
 	}
 
 	dir := t.TempDir()
-	c := c16Case{Cfg: c16Config{TTL: "3s", HasTpl: true, Claims: []c16Tmpl{{Name: "sub", Kind: "str", Val: "evil"}}}, Store: gens[0]}
+	c := c16Case{Cfg: c16Config{TTL: "70s", HasTpl: true, Claims: []c16Tmpl{{Name: "sub", Kind: "str", Val: "evil"}}}, Store: gens[0]}
 
 	sys, status := c16Create(pki, dir, c)
 	if sys == nil {
@@ -468,6 +528,28 @@ func TestVerifC16Race(t *testing.T) {
 
 	duration := time.Duration(vf.EnvInt("VERIF_C16_RACE_MS", 1500)) * time.Millisecond
 	workers := 6
+
+	// with the repair of C16-F2 in the tree half of the workers use a real (shared) memory cache with few
+	// subjects, so that reuse happens while generations come and go and come back; without the repair a reused
+	// token may legitimately (= as recorded in the finding) fail the window check
+	var shared cache.Cache
+	if vf.EnvInt("VERIF_C16_RACE_CACHE", 0) == 1 {
+		shared, _ = memory.NewCache(nil, nil, nil)
+	}
+
+	// every reader of the guarded fields runs concurrently with the reloader: Hash, Keys (JWKS), Sign, and the
+	// certificate supplier
+	wg.Add(1)
+
+	go func() {
+		defer wg.Done()
+
+		for !stop.Load() {
+			_ = sys.fin.Certificates()
+			_ = sys.fin.signer.Hash()
+			_ = sys.fin.Name()
+		}
+	}()
 
 	// the reloader: atomically replace the file (rename), then OnChanged, as the watcher would
 	wg.Add(1)
@@ -532,12 +614,18 @@ func TestVerifC16Race(t *testing.T) {
 				body0, code0 := sys.fetchJWKS()
 				kids0, set0 := kidsOf(body0)
 
-				rc := &c16ReqCtx{ctx: context.Background(), headers: map[string]string{}}
-				if wk%2 == 1 {
+				rc := &c16ReqCtx{ctx: context.Background(), headers: map[string]string{}, outputs: map[string]any{}}
+				subID := fmt.Sprintf("w%d-%d", wk, n)
+
+				switch {
+				case wk%2 == 1 && shared != nil:
+					rc.ctx = cache.WithContext(rc.ctx, shared)
+					subID = fmt.Sprintf("shared-%d", n%3)
+				case wk%2 == 1:
 					rc.ctx = cache.WithContext(rc.ctx, &c16NoCache{})
 				}
 
-				err := sys.fin.Execute(rc, &subject.Subject{ID: fmt.Sprintf("w%d-%d", wk, n)})
+				err := sys.fin.Execute(rc, &subject.Subject{ID: subID})
 
 				body1, code1 := sys.fetchJWKS()
 				kids1, set1 := kidsOf(body1)
@@ -588,7 +676,7 @@ func TestVerifC16Race(t *testing.T) {
 				}
 
 				sub, _ := c16ClaimStr(dt, "sub")
-				if sub != fmt.Sprintf("w%d-%d", wk, n) {
+				if sub != subID {
 					errs++
 				}
 				mu.Unlock()
